@@ -657,6 +657,17 @@ impl<'a, 'tcx> Visitor<'tcx> for BV<'a, 'tcx> {
                         }
                     }
                 }
+                // which local holds a closure value (to connect captured variables, `mv _N.k`, with the closure body's upvars)
+                if let Rvalue::Aggregate(kind, _) = rv {
+                    if let AggregateKind::Closure(did, _) = &**kind {
+                        let s = format!(
+                            "[\"closure_at\",\"_{}\",{}]",
+                            place.local.as_usize(),
+                            esc(&cname(self.tcx, *did))
+                        );
+                        self.push(loc.block, s);
+                    }
+                }
                 // aggregates (Some(x), tuples, struct literals): the result is derived from each operand
                 if let Rvalue::Aggregate(_, ops) = rv {
                     for (idx, op) in ops.iter().enumerate() {
